@@ -102,6 +102,9 @@ def run_scenario(sc) -> Result:
                 key = "defer-cap-on-detached-dynamic-input"
             elif _stale_child(w, run.last):
                 key = "stale-child-of-rerunning-plan"
+        if _stale_static_hash(run.uni):
+            # known finding F26, whatever the first difference happens to be
+            key = "static-file-changed-while-detached"
         res.violate("T-scratch", "differs", "\n".join(diffs[:14]), key)
     res.sample = {
         "seed": sc["seed"],
@@ -112,6 +115,29 @@ def run_scenario(sc) -> Result:
         "scratch_rc": res_s.rc_value,
     }
     return res
+
+
+def _stale_static_hash(uni):
+    """The structure of known finding F26: an attached CONFIRMED file whose recorded digest is
+    not the content on disk after a completed build (it changed while its node was detached,
+    which neither the startup rescan nor the recycling of its declaring plan looks at)."""
+    import os
+
+    from sim.monitors import _hex_digest
+    from sim.simfs import digest_of
+    from stepup.core.enums import FileState
+
+    snap = uni.snapshot()
+    for i, (state, hj) in snap.files.items():
+        if i not in snap.nodes or snap.nodes[i][3] or state != FileState.CONFIRMED.value:
+            continue
+        label = snap.nodes[i][1]
+        if label.endswith("/"):
+            continue
+        on_disk = digest_of(os.path.join(uni.root, label))
+        if on_disk not in (None, "DIR") and _hex_digest(hj) not in (None, "?", on_disk):
+            return True
+    return False
 
 
 def _succeeded_with_detached_input(proj):
